@@ -121,16 +121,15 @@ def C15_tweaks_full (WF : Val → Prop) : Prop :=
   ∀ (h : Str → Str) (t : Val), WF t → postProcess (dumpP h [] [] t) = dumpP h [] [] (tweak [] t)
 
 /-- **C15 (tweak: unquote), partial.** On the dump of a tree satisfying the local clauses of
-`wfUnquote` (no `=` in names; types untouched by the pass; on every scalar the pass does what the
-scalar's real kind says), the line-level pass `unquote` is exactly the dump of the tree in which every
+`wfUnquote` (no `=` in names; types untouched by the pass; a `str` repr is delimited by quotes, no
+other repr both starts and ends with a quote), the line-level pass `unquote` is exactly the dump of the tree in which every
 `str` scalar has lost its two delimiters — and nothing else has changed. -/
 theorem C15_tweak_unquote_partial (t0 t : Val) (hwf : wfUnquote t = true) :
     unquote (dumpP (hashFn t0) [] [] t) = dumpP (hashFn t0) [] [] (unquoteTree t) :=
   unquote_dumpP (hashFn t0) (hashNoQuote_hashFn t0) t [] [] (by simp) (by simp) hwf
 
 /-- **C15 (tweak: suppress_kinds), partial.** On the dump of a tree satisfying `wfKinds` (no `=` or
-`/` in names, no `=` in types, no `/kind=` inside scalars, a scalar field `kind` is the last field of
-its node), the line-level pass `suppress_kinds` is exactly the dump of the tree from which the scalar
+`/` in names, no `=` in types, a scalar field `kind` is the last field of its node), the line-level pass `suppress_kinds` is exactly the dump of the tree from which the scalar
 fields called `kind` have been removed below the root. -/
 theorem C15_tweak_kinds_partial (t0 : Val) (ty : Str) (e : Bool) (r : Str) (ln : Option Nat)
     (fs : List (Str × Val)) (hwf : wfKinds (.node ty e r ln fs) = true) :
@@ -207,11 +206,19 @@ theorem C15_bytes_kind_agrees :
     (constantKindOfRepr cs!"b\"it's\"").1 = kindTypeName .bytes ∧
       (constantKindOfRepr cs!"b'ab'").1 = kindTypeName .bytes := by decide
 
-/-- Finding 15: the local clause of `wfKinds` fails for a string containing `/kind=`, and the pass then
-deletes the value line of the constant. -/
-theorem C15_kind_in_string_counterexample :
-    wfKinds (.scalar cs!"'a/kind=b'" .str) = false ∧
-      suppressKinds [cs!"/body/1/value/_type=Constant", cs!"/body/1/value/value='a/kind=b'"] =
-        [cs!"/body/1/value/_type=Constant"] := by decide
+/-- Former findings 15a/15d (repaired by 83ae3f3): a value containing `/kind=` satisfies the clauses
+of `wfKinds` and its line is kept by the pass; only the `kind` attribute line goes. -/
+theorem C15_kind_in_value_kept :
+    wfKinds (.scalar cs!"'a/kind=b'" .str) = true ∧
+      suppressKinds [cs!"/body/1/value/_type=Constant", cs!"/body/1/value/value='a/kind=b'",
+          cs!"/body/1/value/kind=None"] =
+        [cs!"/body/1/value/_type=Constant", cs!"/body/1/value/value='a/kind=b'"] := by decide
+
+/-- Former finding 15c (repaired by 0ac09ad): quotes inside a bytes repr are left alone (the clause of
+`wfUnquote` holds for it), a `str` loses exactly its two delimiters. -/
+theorem C15_unquote_anchored :
+    wfUnquote (.scalar cs!"b'=\"'" .bytes) = true ∧
+      unquote [cs!"/body/1/value/s=b'=\"'", cs!"/body/1/value/s='a=\"b\"'"] =
+        [cs!"/body/1/value/s=b'=\"'", cs!"/body/1/value/s=a=\"b\""] := by decide
 
 end Paroxy.Props.C15
